@@ -26,6 +26,7 @@ PROFILE = "verif"
 EVIDENCE = os.path.join(VERIF, "evidence")
 REPLAY = os.path.join(VERIF, "replay")
 KNOWN = os.path.join(VERIF, "known_findings.json")
+MAX_CONFIRMED_ABORTS = 6
 
 # property -> (binary, level, worker time limit quick, thorough [s])
 PROPS = {
@@ -186,6 +187,7 @@ def run_check(prop, tier, seed):
 
     shards = [Shard(i) for i in range(jobs)]
     extra_violations = []   # found by the driver (aborts, hangs)
+    cut_short = []
     inconclusive = []
 
     def start(sh):
@@ -260,6 +262,23 @@ def run_check(prop, tier, seed):
                 extra_violations.append({"signature": signature, "replay": rpath,
                                          "detail": "process %s at case %d (%s)" % (status, case, label)})
             if timed_out:
+                sh.done = True
+                continue
+            if len(extra_violations) >= MAX_CONFIRMED_ABORTS:
+                # the verdict is already 'violated'; every further abort costs a process restart
+                # and an isolated re-run (an allocation bomb takes seconds): stop exploring
+                if not cut_short:
+                    cut_short.append("run cut short after %d process aborts / hangs confirmed in "
+                                     "isolation" % len(extra_violations))
+                for other in shards:
+                    if not other.done and other is not sh:
+                        try:
+                            os.killpg(other.proc.pid, signal.SIGKILL)
+                        except Exception:
+                            other.proc.kill()
+                        other.proc.wait()
+                        other.log.close()
+                        other.done = True
                 sh.done = True
                 continue
             # continue with the rest of this shard
@@ -339,6 +358,10 @@ def run_check(prop, tier, seed):
         inconclusive.append("coverage floor %s: observed %d < required %d" % (k, got, need))
     if evaluations == 0:
         inconclusive.append("no evaluations were performed")
+    for c in cut_short:
+        notes.append(c)
+        # only a violated verdict may rest on a run that was cut short
+        inconclusive.append(c)
     if hist.get("harness_panics", 0) > 0:
         inconclusive.append("%d case(s) ended in a panic of the harness itself (not of the code under test): %s"
                             % (hist["harness_panics"], "; ".join(n for n in notes if n.startswith("harness panic"))[:600]))
